@@ -30,7 +30,7 @@ ASSUMPTIONS = [
 ]
 CONFIG = {
     "quick": {"examples": 960, "shards": 16, "shrink_s": 40, "time_budget_s": 240},
-    "thorough": {"examples": 8000, "shards": 16, "shrink_s": 200, "time_budget_s": 1500},
+    "thorough": {"examples": 14000, "shards": 16, "shrink_s": 200, "time_budget_s": 1500},
 }
 LEAD_SIZES = [2, 3, 5, 7, 4, 6]
 IMMEDIATE = ["vector", "images", "copy", "jit", "vmap", "flatten", "gi_pytree"]
